@@ -84,10 +84,10 @@ theorem exec_some {s s' : St} {who : Who} {u k i fee x y : Nat} {throw fail : Bo
           simp at hsf
           exact ⟨c.symm, Or.inr ⟨b.symm, hsf.1, hsf.2, by rw [← a]⟩⟩
 
-theorem create_some {s s' : St} {u k i a b el : Nat} {soft : Bool} (h : create s u k i a b soft el = some s') :
+theorem create_some {s s' : St} {u k i a b el rc : Nat} {soft : Bool} (h : create s u k i a b soft el rc = some s') :
     s.acts u k i = none ∧ ∃ l sh m, escrowOf (s.users u) k a b = some (l, sh, m) ∧ minExecLamports k ≤ el ∧
       s' = setAct (setUser s u ⟨(s.users u).long - l, (s.users u).short - sh, (s.users u).mt - m⟩) u k i
-        (some ⟨0, l, sh, m, s.now, el, soft⟩) := by
+        (some ⟨0, l, sh, m, s.now, el, soft, rc⟩) := by
   unfold create at h
   split at h; · cases h
   rename_i hn
@@ -101,7 +101,7 @@ theorem create_some {s s' : St} {u k i a b el : Nat} {soft : Bool} (h : create s
 
 theorem close_some {s s' : St} {who : Who} {u k i : Nat} (h : close s who u k i = some s') :
     ∃ act, s.acts u k i = some act ∧ (who = .user u ∨ (who = .keeper ∧ act.state ≠ 0)) ∧
-      s' = setAct (setUser s u ⟨(s.users u).long + act.escLong, (s.users u).short + act.escShort, (s.users u).mt + act.escMt⟩) u k i none := by
+      s' = setAct (credit (credit s u (inSide k act)) act.receiver (outSide k act)) u k i none := by
   unfold close at h
   split at h; · cases h
   rename_i act hact
@@ -110,6 +110,8 @@ theorem close_some {s s' : St} {who : Who} {u k i : Nat} (h : close s who u k i 
   rename_i hal
   cases h
   exact ⟨act, hact, Classical.byContradiction (fun hn => hal hn), rfl⟩
+
+theorem acts_credit (s : St) (v : Nat) (t : Nat × Nat × Nat) : (credit s v t).acts = s.acts := rfl
 
 /-! ### events of one slot -/
 def isCreated (u k i : Nat) : Event → Bool | .created a b c => a == u && b == k && c == i | _ => false
@@ -122,8 +124,8 @@ theorem solvent_step {s : St} (hs : Solvent s) (op : Op) : Solvent (step s op).1
   cases op with
   | tick dt => exact ⟨hs.long, hs.short, hs.supply⟩
   | price age => exact ⟨hs.long, hs.short, hs.supply⟩
-  | create u k i a b soft el =>
-    rcases Option.eq_none_or_eq_some (create s u k i a b soft el) with hc | ⟨s', hc⟩
+  | create u k i a b soft el rc =>
+    rcases Option.eq_none_or_eq_some (create s u k i a b soft el rc) with hc | ⟨s', hc⟩
     · simp only [step, hc]; exact hs
     · simp only [step, hc]
       obtain ⟨_, l, sh, m, _, _, rfl⟩ := create_some hc
@@ -160,8 +162,8 @@ theorem step_counts (s : St) (op : Op) (u k i : Nat) :
   cases op with
   | tick dt => exact ⟨rfl, Nat.le_refl _⟩
   | price age => exact ⟨rfl, Nat.le_refl _⟩
-  | create a b c x y soft el =>
-    rcases Option.eq_none_or_eq_some (create s a b c x y soft el) with hc | ⟨s', hc⟩
+  | create a b c x y soft el rc =>
+    rcases Option.eq_none_or_eq_some (create s a b c x y soft el rc) with hc | ⟨s', hc⟩
     · simp [step, hc, isClosed, isCreated, isExecuted]
     · obtain ⟨hn, l, sh, m, _, _, rfl⟩ := create_some hc
       by_cases hid : a = u ∧ b = k ∧ c = i
@@ -194,11 +196,11 @@ theorem step_counts (s : St) (op : Op) (u k i : Nat) :
     · obtain ⟨act, hact, _, rfl⟩ := close_some hc
       by_cases hid : a = u ∧ b = k ∧ c = i
       · obtain ⟨rfl, rfl, rfl⟩ := hid
-        simp [step, hc, isClosed, isCreated, isExecuted, openCount, pendingCount, acts_setAct, setUser, hact]
+        simp [step, hc, isClosed, isCreated, isExecuted, openCount, pendingCount, acts_setAct, acts_credit, hact]
       · have hid' : ¬ (u = a ∧ k = b ∧ i = c) := fun h => hid ⟨h.1.symm, h.2.1.symm, h.2.2.symm⟩
         have e : (isClosed u k i (Event.closed a b c)) = false := by
           simp only [isClosed]; by_cases h1 : a = u <;> by_cases h2 : b = k <;> by_cases h3 : c = i <;> simp_all
-        simp [step, hc, isCreated, isExecuted, e, openCount, pendingCount, acts_setAct, setUser, hid']
+        simp [step, hc, isCreated, isExecuted, e, openCount, pendingCount, acts_setAct, acts_credit, hid']
 
 theorem run_counts (s : St) (ops : List Op) (u k i : Nat) :
     (run s ops).2.countP (isClosed u k i) + openCount (run s ops).1 u k i
@@ -212,5 +214,105 @@ theorem run_counts (s : St) (ops : List Op) (u k i : Nat) :
     obtain ⟨s1, s2⟩ := step_counts s op u k i
     simp only [run, List.countP_cons]
     constructor <;> omega
+
+/-! ### who holds what: completed actions hold only proceeds, all others only refundable input -/
+
+/-- every open action is well formed: a completed one has an empty input side (nothing left to refund), a pending or
+cancelled one an empty output side (no proceeds). -/
+def WellFormed (s : St) : Prop :=
+  ∀ u k i act, s.acts u k i = some act →
+    (act.state = 1 → inSide k act = (0, 0, 0)) ∧ (act.state ≠ 1 → outSide k act = (0, 0, 0))
+
+theorem escrowOf_out {usr : User} {k a b l sh m : Nat} (h : escrowOf usr k a b = some (l, sh, m)) :
+    outSide k ⟨0, l, sh, m, 0, 0, false, 0⟩ = (0, 0, 0) := by
+  rcases k with _ | _ | _ | k
+  · simp [escrowOf] at h
+    obtain ⟨_, _, _, hm⟩ := h; simp [outSide, ← hm]
+  · simp [escrowOf] at h
+    obtain ⟨_, hl, hs, _⟩ := h; simp [outSide, ← hl, ← hs]
+  · simp [escrowOf] at h
+    obtain ⟨_, _, hs, _⟩ := h; simp [outSide, ← hs]
+  · simp [escrowOf] at h
+    obtain ⟨_, hl, _, _⟩ := h; simp [outSide, ← hl]
+
+theorem complete_wf {s s' : St} {u k i x y : Nat} {act : Act} (h : complete s u k i act x y = some s')
+    (hout : outSide k act = (0, 0, 0)) :
+    ∃ act', s'.acts = (setAct s u k i (some act')).acts ∧ act'.state = 1 ∧ inSide k act' = (0, 0, 0) ∧
+      act'.receiver = act.receiver := by
+  rcases k with _ | _ | _ | k
+  · simp only [complete] at h; simp at h; subst h
+    exact ⟨_, rfl, rfl, by simp [inSide], rfl⟩
+  · simp only [complete] at h; simp at h
+    obtain ⟨_, rfl⟩ := h
+    exact ⟨_, rfl, rfl, by simp [inSide], rfl⟩
+  · simp only [complete] at h; simp at h
+    obtain ⟨_, rfl⟩ := h
+    exact ⟨_, rfl, rfl, by simp [inSide], rfl⟩
+  · simp only [complete] at h; simp at h
+    obtain ⟨_, rfl⟩ := h
+    exact ⟨_, rfl, rfl, by simp [inSide], rfl⟩
+
+theorem wf_step {s : St} (hw : WellFormed s) (op : Op) : WellFormed (step s op).1 := by
+  cases op with
+  | tick dt => exact hw
+  | price age => exact hw
+  | create u k i a b soft el rc =>
+    rcases Option.eq_none_or_eq_some (create s u k i a b soft el rc) with hc | ⟨s', hc⟩
+    · simp only [step, hc]; exact hw
+    · simp only [step, hc]
+      obtain ⟨_, l, sh, m, he, _, rfl⟩ := create_some hc
+      intro a b' c act hact
+      simp only [acts_setAct] at hact
+      split at hact
+      · rename_i hid
+        obtain ⟨rfl, rfl, rfl⟩ := hid
+        cases hact
+        refine ⟨fun h => by simp at h, fun _ => ?_⟩
+        have := escrowOf_out he
+        simpa [outSide] using this
+      · exact hw a b' c act hact
+  | exec who u k i fee throw fail x y =>
+    rcases Option.eq_none_or_eq_some (exec s who u k i fee throw fail x y) with hc | ⟨⟨s', o, paid⟩, hc⟩
+    · simp only [step, hc]; exact hw
+    · simp only [step, hc]
+      obtain ⟨_, act, hact, hst, _, hcase⟩ := exec_some hc
+      have hout := (hw u k i act hact).2 (by omega)
+      rcases hcase with ⟨_, _, rfl⟩ | ⟨_, _, _, hcomp⟩
+      · intro a b c act2 h2
+        simp only [acts_setAct] at h2
+        split at h2
+        · rename_i hid
+          obtain ⟨rfl, rfl, rfl⟩ := hid
+          cases h2
+          exact ⟨fun h => by simp at h, fun _ => by simpa [outSide] using hout⟩
+        · exact hw a b c act2 h2
+      · obtain ⟨act', hacts, h1, hin, _⟩ := complete_wf hcomp hout
+        intro a b c act2 h2
+        rw [hacts] at h2
+        simp only [acts_setAct] at h2
+        split at h2
+        · rename_i hid
+          obtain ⟨rfl, rfl, rfl⟩ := hid
+          cases h2
+          exact ⟨fun _ => hin, fun h => absurd h1 h⟩
+        · exact hw a b c act2 h2
+  | close who u k i =>
+    rcases Option.eq_none_or_eq_some (close s who u k i) with hc | ⟨s', hc⟩
+    · simp only [step, hc]; exact hw
+    · simp only [step, hc]
+      obtain ⟨act, _, _, rfl⟩ := close_some hc
+      intro a b c act2 h2
+      simp only [acts_setAct, acts_credit] at h2
+      split at h2
+      · cases h2
+      · exact hw a b c act2 h2
+
+theorem wf_init (l sh : Nat) (now : Int) : WellFormed (init l sh now) := by
+  intro u k i act h; simp [init] at h
+
+theorem wf_run {s : St} (hw : WellFormed s) (ops : List Op) : WellFormed (run s ops).1 := by
+  induction ops generalizing s with
+  | nil => exact hw
+  | cons op ops ih => exact ih (wf_step hw op)
 
 end Gmx.Life2
